@@ -38,6 +38,10 @@
 //   second sample written with a related_sample_identity.  Inline QoS (Q flag) in every DATAFRAG:
 //   every case with a related_sample_identity (real builder) and with PID_KEY_HASH + sentinel in a
 //   hand-made wire image, in order / reversed / reversed-doubled, interleaved with a second sample.
+//   Whole receive path (frag.msgrx.deliver): every case (incl. sizes that are exact multiples of
+//   the fragment size) x both byte orders x in order / reversed as serialized messages through
+//   MessageReceiver::handle_received_packet into a real Reader and its topic cache; real Writer
+//   (fragment size 1024) -> UDP -> MessageReceiver for sizes 1024*m + {-1,0,1}, m = 1..=3.
 #[cfg(test)]
 mod verif_xc_fragments {
   use std::{
@@ -705,5 +709,185 @@ mod verif_xc_fragments {
       n_frags += n as u64;
     }
     assert!(sn > 180 && n_frags > 1000, "vacuity guard: {} samples, {} fragments", sn, n_frags);
+  }
+
+  // ------------------------------------------------------------------------------------------
+  // The whole receive path: serialized RTPS messages -> MessageReceiver::handle_received_packet
+  // (its DATAFRAG acceptance check) -> Reader::handle_datafrag_msg -> FragmentAssembler -> the
+  // topic cache the DataReader takes its samples from.  Oracle (frag.msgrx.deliver): after all
+  // fragments of a sample went in, the cache holds exactly one change for (writer, sn) and its
+  // wire bytes equal the bytes written.
+  struct RxRig {
+    mr: crate::rtps::message_receiver::MessageReceiver,
+    cache: std::sync::Arc<std::sync::Mutex<crate::structure::dds_cache::TopicCache>>,
+    reader_id: EntityId,
+    qos: QosPolicies,
+    _keep: Box<dyn std::any::Any>,
+  }
+  impl RxRig {
+    fn new() -> RxRig {
+      use std::sync::{Arc, Mutex};
+      use crate::{
+        dds::{qos::{policy::History, QosPolicyBuilder}, statusevents::DataReaderStatus, typedesc::TypeDesc},
+        dds::with_key::simpledatareader::ReaderCommand,
+        rtps::{message_receiver::MessageReceiver, reader::{Reader, ReaderIngredients}},
+        structure::dds_cache::TopicCache,
+      };
+      let qos = QosPolicyBuilder::new().history(History::KeepAll).build(); // best effort: every received sample is visible at once
+      let cache = Arc::new(Mutex::new(TopicCache::new("verif_xc_fragments_rx".to_string(), TypeDesc::new("Blob".to_string()), &qos)));
+      let reader_guid = GUID::new(GuidPrefix::new(&[0x52; 12]), EntityId::new([0x7e, 0x57, 0x02], EntityKind::READER_WITH_KEY_USER_DEFINED));
+      let (notification_sender, n) = mio_extras::channel::sync_channel::<()>(100);
+      let (p, poll_event_sender) = crate::mio_source::make_poll_channel().unwrap();
+      let (status_sender, st) = sync_status_channel::<DataReaderStatus>(4).unwrap();
+      let (participant_status_sender, ps) = sync_status_channel(16).unwrap();
+      let (c, data_reader_command_receiver) = mio_extras::channel::sync_channel::<ReaderCommand>(10);
+      let ing = ReaderIngredients {
+        guid: reader_guid,
+        notification_sender,
+        status_sender,
+        topic_name: "verif_xc_fragments_rx".to_string(),
+        topic_cache_handle: cache.clone(),
+        like_stateless: false,
+        qos_policy: qos.clone(),
+        data_reader_command_receiver,
+        data_reader_waker: Arc::new(Mutex::new(None)),
+        poll_event_sender,
+        security_plugins: None,
+      };
+      let reader = Reader::new(ing, std::rc::Rc::new(UDPSender::new(0).unwrap()), mio_extras::timer::Builder::default().build(), participant_status_sender);
+      let (acknack_sender, ar) = mio_extras::channel::sync_channel(10);
+      let (spdp_liveness_sender, sr) = mio_extras::channel::sync_channel(8);
+      let mut mr = MessageReceiver::new(reader_guid.prefix, acknack_sender, spdp_liveness_sender, None);
+      mr.add_reader(reader);
+      RxRig { mr, cache, reader_id: reader_guid.entity_id, qos, _keep: Box::new((n, p, st, ps, c, ar, sr)) }
+    }
+    fn match_writer(&mut self, w: GUID) {
+      let qos = self.qos.clone();
+      self.mr.reader_mut(self.reader_id).unwrap().matched_writer_add(w, EntityId::UNKNOWN, vec![], vec![], &qos);
+    }
+    // the changes of (writer, sn) in the cache: (is key, wire bytes)
+    fn handed_over(&self, w: GUID, sn: i64) -> Vec<(bool, Vec<u8>)> {
+      let c = self.cache.lock().unwrap();
+      let v: Vec<(bool, Vec<u8>)> = c
+        .get_changes_in_range_best_effort(Timestamp::ZERO, Timestamp::INFINITE)
+        .filter(|(_, cc)| cc.writer_guid == w && cc.sequence_number == SequenceNumber::new(sn))
+        .map(|(_, cc)| wire_bytes(&cc.data_value))
+        .collect();
+      v
+    }
+  }
+  fn short(b: &[u8]) -> String {
+    if b.len() <= 40 { format!("{:?}", b) } else { format!("{} bytes {:?}..{:?}", b.len(), &b[..8], &b[b.len() - 8..]) }
+  }
+
+  #[test]
+  fn xc_frag_msgrx_deliver() {
+    let mut rig = RxRig::new();
+    let (mut n_samples, mut n_packets, mut n_exact, mut wi) = (0u64, 0u64, 0u64, 0u32);
+    for (vlen, fs, key, _) in cases() {
+      for e in [Endianness::LittleEndian, Endianness::BigEndian] {
+        // one writer per case: a writer's fragment size is constant
+        wi += 1;
+        let mut pfx = [0xA7u8; 12];
+        pfx[..4].copy_from_slice(&wi.to_be_bytes());
+        let w = GUID::new(GuidPrefix::new(&pfx), EntityId::new([0, 0, 7], EntityKind::WRITER_WITH_KEY_USER_DEFINED));
+        rig.match_writer(w);
+        for (sn, reversed) in [(1i64, false), (2, true)] {
+          let rsi = (vlen + sn as usize) % 4 == 0;
+          let (data, full) = written(7, sn, vlen, key);
+          let size = full.len();
+          let n = ceil_div(size, fs as usize);
+          let cc = CacheChange::new(w, SequenceNumber::new(sn), if rsi { rsi_options() } else { WriteOptions::default() }, data);
+          let what = format!("sample(sn={} size={} key={} related_sample_identity={}) fragment size {} ({} fragments{}) {:?} arrival {}", sn, size, key, rsi, fs, n,
+            if size % fs as usize == 0 { ", size is an exact multiple" } else { "" }, e, if reversed { "reversed" } else { "in order" });
+          let order: Vec<usize> = if reversed { (1..=n).rev().collect() } else { (1..=n).collect() };
+          for (i, k) in order.iter().enumerate() {
+            let mut mb = MessageBuilder::new();
+            if sn == 2 { mb = mb.ts_msg(e, Some(Timestamp::now())); }
+            let bytes = mb
+              .data_frag_msg(&cc, EntityId::UNKNOWN, w, FragmentNumber::new(*k as u32), fs, size as u32, e, None)
+              .add_header_and_build(w.prefix)
+              .write_to_vec_with_ctx(e)
+              .unwrap();
+            rig.mr.handle_received_packet(&Bytes::from(bytes));
+            n_packets += 1;
+            let got = rig.handed_over(w, sn);
+            if i + 1 < n {
+              assert!(got.is_empty(), "XC-WITNESS label=frag.incomplete.none {}: after fragments {:?} of {} a sample is already handed over: {:?}", what, &order[..=i], n, got.iter().map(|g| short(&g.1)).collect::<Vec<_>>());
+            } else {
+              assert!(got.len() == 1 && got[0].1 == full && got[0].0 == key,
+                "XC-WITNESS label=frag.msgrx.deliver {}: every fragment went through MessageReceiver::handle_received_packet in the order {:?}; handed over to the reader's cache: {:?} (key flags {:?}), written: {}", what, order,
+                got.iter().map(|g| short(&g.1)).collect::<Vec<_>>(), got.iter().map(|g| g.0).collect::<Vec<_>>(), short(&full));
+            }
+          }
+          n_samples += 1;
+          if size % fs as usize == 0 { n_exact += 1; }
+        }
+        *rig.cache.lock().unwrap() = crate::structure::dds_cache::TopicCache::new("verif_xc_fragments_rx".to_string(), crate::dds::typedesc::TypeDesc::new("Blob".to_string()), &rig.qos);
+      }
+    }
+    assert!(n_samples > 700 && n_exact > 150 && n_packets > 4000, "vacuity guard: {} samples ({} exact multiples), {} packets", n_samples, n_exact, n_packets);
+  }
+
+  // real Writer (default fragment size 1024) -> UDP 127.0.0.1 -> MessageReceiver -> Reader -> cache, for
+  // serialized sizes around and exactly at multiples of the fragment size
+  #[test]
+  fn xc_frag_real_writer_msgrx_exact_multiples() {
+    use std::{net::{SocketAddr, UdpSocket}, rc::Rc, sync::{Arc, Mutex}};
+    let sock = UdpSocket::bind("127.0.0.1:0").unwrap();
+    sock.set_read_timeout(Some(std::time::Duration::from_millis(500))).unwrap();
+    let to: SocketAddr = sock.local_addr().unwrap();
+    let (cmd_s, writer_command_receiver) = mio_extras::channel::sync_channel::<WriterCommand>(4);
+    let (status_sender, _status_r) = sync_status_channel::<DataWriterStatus>(16).unwrap();
+    let (participant_status_sender, _pr) = sync_status_channel(16).unwrap();
+    let wguid_real = GUID::new(GuidPrefix::new(&[0x57; 12]), EntityId::new([1, 2, 3], EntityKind::WRITER_WITH_KEY_USER_DEFINED));
+    let ing = WriterIngredients {
+      guid: wguid_real,
+      writer_command_receiver,
+      writer_command_receiver_waker: Arc::new(Mutex::new(None)),
+      topic_name: "verif_xc_fragments_rx".to_string(),
+      like_stateless: false,
+      qos_policies: QosPolicies::qos_none(),
+      status_sender,
+      security_plugins: None,
+    };
+    let mut w = Writer::new(ing, Rc::new(UDPSender::new(0).unwrap()), mio_extras::timer::Builder::default().build(), participant_status_sender);
+    let fs = w.data_max_size_serialized; // the writer's own choice (1024)
+    let mut rig = RxRig::new();
+    rig.match_writer(wguid_real);
+    let mut rp = RtpsReaderProxy::new(GUID::new(GuidPrefix::new(&[0x52; 12]), rig.reader_id), QosPolicies::qos_none(), false);
+    rp.unicast_locator_list = vec![Locator::from(to)];
+    w.update_reader_proxy(&rp, &QosPolicies::qos_none());
+    let mut sn = 0i64;
+    let mut sizes = vec![];
+    for m in 1..=3usize { for d in [-1i64, 0, 1] { sizes.push((m * fs) as i64 + d); } }
+    for size in sizes {
+      for key in [false, true] {
+        sn += 1;
+        let (data, full) = written(5, sn, size as usize - 4, key);
+        let what = format!("real Writer (fragment size {}) sample(sn={} size={} key={}{})", fs, sn, size, key, if size as usize % fs == 0 { ", size is an exact multiple" } else { "" });
+        cmd_s.send(WriterCommand::DDSData { ddsdata: data, write_options: WriteOptions::default(), sequence_number: SequenceNumber::new(sn) }).unwrap();
+        w.process_writer_command();
+        let mut buf = [0u8; 8192];
+        let mut kinds = vec![];
+        loop {
+          let len = match sock.recv(&mut buf) { Ok(l) => l, Err(_) => break };
+          let bytes = Bytes::copy_from_slice(&buf[..len]);
+          let m = Message::read_from_buffer(&bytes);
+          rig.mr.handle_received_packet(&bytes);
+          let hb = m.as_ref().map_or(false, |m| m.submessages.iter().any(|s| matches!(s.body, SubmessageBody::Writer(WriterSubmessage::Heartbeat(..)))));
+          kinds.push(m.map_or("unparsable".to_string(), |m| m.submessages.iter().map(|s| format!("{:?}({}B)", s.header.kind, s.header.content_length)).collect::<Vec<_>>().join("+")));
+          if hb { break; }
+        }
+        let got = rig.handed_over(wguid_real, sn);
+        // a sample that fits one fragment travels as DATA, whose payload RTPS framing pads with zeros to 4 bytes (C14)
+        let mut padded = full.clone();
+        if size as usize <= fs { while padded.len() % 4 != 0 { padded.push(0); } }
+        assert!(got.len() == 1 && (got[0].1 == full || got[0].1 == padded) && got[0].0 == key,
+          "XC-WITNESS label=frag.msgrx.deliver {}: datagrams sent {:?}, each given to MessageReceiver::handle_received_packet; handed over to the reader's cache: {:?}, written: {}", what, kinds,
+          got.iter().map(|g| short(&g.1)).collect::<Vec<_>>(), short(&full));
+      }
+    }
+    assert!(sn == 18, "vacuity guard: {} samples", sn);
   }
 }
